@@ -257,6 +257,23 @@ Proof.
                         H1 H2 H3 (or_intror H4) H5 ff s shown ex id ms e).
 Qed.
 
+(* ... in the vocabulary of the detection theorems (`has_err off code` in the validator's report): what C02_in_sync_* / C02_*_rules establish
+   for a unit's pass is in the final report of the whole run, at that offset with that code, and decides the exit status *)
+Theorem C02_end_to_end : forall c pkts ff s shown ex id ms off code,
+  Forall wf_pkt pkts -> N.of_nat (length pkts) < U32_MAX -> pay_all pkts < U32_MAX ->
+  (sc_skip (rc_scan c) = true \/ forall p, In p pkts -> layout_rp (hdr p) (p_payload p)) ->
+  (forall p r, pkts = p :: r -> known_sysid (r_system_id (hdr p)) = true) ->
+  run_check ff c (serialize pkts) = R_done s shown ex ->
+  sel (rc_check c) id (map (mk_cdp (rc_scan c)) (selected (rc_scan c) 0 pkts)) <> [] ->
+  run_validator (rc_check c) (sel (rc_check c) id (map (mk_cdp (rc_scan c)) (selected (rc_scan c) 0 pkts))) = Ok ms ->
+  has_err off code ms ->
+  (exists m, In m (k_errors s) /\ m_off m = off /\ m_body m = code) /\ 0 < k_total s /\ (forall n, rc_exit c = Some n -> n <> 0 -> ex = n).
+Proof.
+  exact (fun c pkts ff s shown ex id ms off code H1 H2 H3 H4 H5 =>
+           c02_end_to_end c pkts (eq_refl : Gen.Facts.cdp_offset_sampled_after = true) (eq_refl : Gen.Facts.error_sort_when_muted = true)
+                          H1 H2 H3 H4 H5 ff s shown ex id ms off code).
+Qed.
+
 Print Assumptions C02_rdh_sanity_reported.
 Print Assumptions C02_rdh_running_reported.
 Print Assumptions C02_running_not_in_sanity.
@@ -294,3 +311,4 @@ Print Assumptions C02_in_sync_ihw_fault_after_packet.
 Print Assumptions C02_in_sync_ddw0_position.
 Print Assumptions C02_in_sync_ddw0_fault.
 Print Assumptions C02_in_sync_unknown_identifier_in_choice_state.
+Print Assumptions C02_end_to_end.
